@@ -735,6 +735,10 @@ impl TzifSpace {
 enum Blow {
     Digits { pi: usize, si: usize, field: usize, n: usize, fill: u8 },
     Unit { pi: usize, ui: usize, total: usize },
+    /// the repeat unit exactly `count` times, and (when `close` is non-empty)
+    /// followed by `count` copies of `close`: repetition and nesting counts on
+    /// both sides of every counter width a parser might use
+    Count { pi: usize, ui: usize, count: usize, close: &'static [u8] },
 }
 
 fn digit_fields(s: &[u8]) -> Vec<(usize, usize)> {
@@ -776,9 +780,28 @@ fn blow_space(ps: &[Parser], quick: bool) -> Vec<Blow> {
             for total in [65_536usize, 1_000_000] {
                 v.push(Blow::Unit { pi, ui, total });
             }
+            for count in COUNTS {
+                v.push(Blow::Count { pi, ui, count: *count, close: b"" });
+                if let Some(close) = closer(p.units[ui].1) {
+                    v.push(Blow::Count { pi, ui, count: *count, close });
+                }
+            }
         }
     }
     v
+}
+
+/// counts straddling 2^7, 2^8, 2^15, 2^16 (and a couple of small ones)
+const COUNTS: &[usize] = &[1, 2, 3, 126, 127, 128, 129, 254, 255, 256, 257, 258, 511, 512, 513, 32_767, 32_768, 32_769, 65_534, 65_535, 65_536, 65_537];
+
+/// the closing delimiter for a repeat unit that is an opening delimiter
+fn closer(unit: &[u8]) -> Option<&'static [u8]> {
+    match unit {
+        b"(" => Some(b")"),
+        b"[" => Some(b"]"),
+        b"<" => Some(b">"),
+        _ => None,
+    }
 }
 
 fn blow_describe(ps: &[Parser], b: &Blow) -> String {
@@ -787,6 +810,10 @@ fn blow_describe(ps: &[Parser], b: &Blow) -> String {
         Blow::Unit { pi, ui, total } => {
             let u = ps[*pi].units[*ui];
             format!("{} blowup \"{}\"+(\"{}\" repeated to {} bytes)+\"{}\"", ps[*pi].name, escape(u.0), escape(u.1), total, escape(u.2))
+        }
+        Blow::Count { pi, ui, count, close } => {
+            let u = ps[*pi].units[*ui];
+            format!("{} blowup \"{}\"+(\"{}\" x{})+(\"{}\" x{})+\"{}\"", ps[*pi].name, escape(u.0), escape(u.1), count, escape(close), count, escape(u.2))
         }
     }
 }
@@ -810,6 +837,18 @@ fn blow_bytes(ps: &[Parser], b: &Blow) -> Vec<u8> {
             let mut out = u.0.to_vec();
             while out.len() + u.1.len() + u.2.len() <= *total {
                 out.extend_from_slice(u.1);
+            }
+            out.extend_from_slice(u.2);
+            out
+        }
+        Blow::Count { pi, ui, count, close } => {
+            let u = ps[*pi].units[*ui];
+            let mut out = u.0.to_vec();
+            for _ in 0..*count {
+                out.extend_from_slice(u.1);
+            }
+            for _ in 0..*count {
+                out.extend_from_slice(close);
             }
             out.extend_from_slice(u.2);
             out
@@ -1032,7 +1071,7 @@ fn child_main(args: &[String]) -> ! {
                 selftest(i);
                 let bytes = blow_bytes(&ps, b);
                 let pi = match b {
-                    Blow::Digits { pi, .. } | Blow::Unit { pi, .. } => *pi,
+                    Blow::Digits { pi, .. } | Blow::Unit { pi, .. } | Blow::Count { pi, .. } => *pi,
                 };
                 let p = &ps[pi];
                 let a0 = allocated();
